@@ -1157,7 +1157,10 @@ def inline_new_temporaries(repo, ref):
                     # nothing with an effect is evaluated in the using statement before the read
                     anc_ids = {id(a) for a in anc}
                     in_target = isinstance(nxt, (ast.Assign, ast.AugAssign, ast.AnnAssign)) and not any(x is use for x in ast.walk(nxt.value)) if hasattr(nxt, "value") and nxt.value is not None else False
+                    deferred = {id(y) for lam in ast.walk(root) if isinstance(lam, ast.Lambda) for y in ast.walk(lam.body)}
                     for c in ast.walk(root):
+                        if id(c) in deferred:
+                            continue    # the body of a lambda is not evaluated by the statement that creates it
                         if isinstance(c, (ast.Call, ast.Await, ast.Yield, ast.YieldFrom, ast.NamedExpr)) and id(c) not in anc_ids and not any(x is c for x in ast.walk(use)):
                             if isinstance(c, ast.Call) and isinstance(c.func, ast.Name) and c.func.id == "super" and not c.args and not c.keywords:
                                 continue    # zero-argument super() has no effect and reads nothing E could change
